@@ -1,5 +1,9 @@
 #!/bin/bash
-# Offline setup after a fresh restore: build the Lean library, all drivers and property modules.
+# Offline setup after a fresh restore: build every property module (which pulls in its models, specs and
+# proofs) and every line-protocol driver.
 set -e
 cd "$(dirname "$0")/lean"
-lake build 2>&1 | tail -3
+DRIVERS=$(grep '^name = "drv_' lakefile.toml | sed 's/name = "\(.*\)"/\1/')
+PROPS=$(ls Gql/Props/C*.lean | sed 's#/#.#g; s#\.lean$##')
+lake build Gql $PROPS $DRIVERS > /tmp/verif_setup.log 2>&1 || { grep -E "error" /tmp/verif_setup.log | head -20; tail -5 /tmp/verif_setup.log; exit 1; }
+tail -1 /tmp/verif_setup.log
